@@ -141,15 +141,17 @@ def printer_language(p, f, pk):
         if g is None:
             return out
         txt = ' '.join(canon(g, kids(r)[0], inline=False).replace(' ', '') for r in g.all_nodes() if r['k'] == 'ReturnStmt' and kids(r))
-        if 'file(from(m))==file(from(move))' in txt:
+        def has(a, b):
+            return (a + '==' + b) in txt or (b + '==' + a) in txt
+        if has('file(from(m))', 'file(from(move))'):
             out.add('file')
-        if 'rank(from(m))==rank(from(move))' in txt:
+        if has('rank(from(m))', 'rank(from(move))'):
             out.add('rank')
-        if 'moved_piece==p' in txt:
+        if has('moved_piece', 'p') or has('moved_piece', 'make_piece_kind(piece_at(from(m)))'):
             out.add('kind')
-        if 'to(move)==to(m)' in txt:
+        if has('to(move)', 'to(m)'):
             out.add('target')
-        if 'promotion(move)==promotion(m)' in txt:
+        if has('promotion(move)', 'promotion(m)'):
             out.add('promotion')
         return out
 
@@ -301,6 +303,13 @@ def printer_language(p, f, pk):
     return results, paths
 
 
+def _peel(n):
+    while n is not None and (n['k'] in ('ExprWithCleanups', 'MaterializeTemporaryExpr', 'CXXBindTemporaryExpr', 'ImplicitCastExpr',
+                                        'ParenExpr', 'CXXFunctionalCastExpr', 'CXXStaticCastExpr')) and kids(n):
+        n = kids(n)[-1]
+    return n
+
+
 def check(ctx):
     p = ctx.prog()
     pk = p.enum('engine::PieceKind')
@@ -357,11 +366,37 @@ def check(ctx):
                 for x in walk(kids(n)[0]):
                     if x['k'] == 'CharacterLiteral' and 'back()' in canon(ps, ps.parent(x) if ps.parent(x)['k'] != 'ImplicitCastExpr' else ps.parent(ps.parent(x)), inline=False):
                         strip.add(chr(x['cv']))
-        init_ok = any(n['k'] == 'VarDecl' and n.get('name') == cmp_var and kids(n) and
-                      short(strip_casts(kids(strip_casts(kids(n)[0]))[0] if strip_casts(kids(n)[0])['k'] == 'CXXConstructExpr' else kids(n)[0]).get('ref', {}).get('n', '')) == 'str'
-                      for n in ps.all_nodes())
-        if not init_ok:
+        decl = [n for n in ps.all_nodes() if n['k'] == 'VarDecl' and n.get('name') == cmp_var and kids(n)]
+        if len(decl) != 1:
+            raise AnalysisBroken('parse_san: the definition of the string compared with the castling spellings was not found')
+        init = _peel(kids(decl[0])[0])
+        if init['k'] == 'CXXConstructExpr' and len(kids(init)) == 1:
+            init = _peel(kids(init)[0])
+        if short(init.get('ref', {}).get('n', '')) == 'str':
+            pass                                 # copy of str, marks removed in place (collected above)
+        elif init['k'] == 'CallExpr' and p.funcs.get((init.get('callee') or {}).get('fid')) is not None and \
+                p.funcs[init['callee']['fid']].body is not None and len(kids(init)) == 2 and \
+                short(_peel(kids(init)[1]).get('ref', {}).get('n', '')) == 'str':
+            # a helper computes the string: decide, for every mark san() appends, what it returns for a string ending in it
+            from rules.norm import Norm, decision, Unknown
+            h = p.funcs[init['callee']['fid']]
+            ctx.analysed(h)
+            q = h.params[0]['name'] if 'name' in h.params[0] else h.params[0].get('n')
+            nmh = Norm(h)
             strip = set()
+            for m in sorted({c for sfx in suffixes for c in sfx}):
+                try:
+                    r = decision(h, {q + '.empty()': 0, q + '.back()': ord(m), q + '.size()': 4, q + '.length()': 4}, nmh)
+                except Unknown as e:
+                    raise AnalysisBroken('parse_san: %s decides on %s, which the suffix rule does not model' % (short(h.name), e))
+                out = nmh.s(kids(r)[0]) if r is not None and kids(r) else None
+                if out in ('%s.substr(0,(%s.size()-1))' % (q, q), '%s.substr(0,(%s.length()-1))' % (q, q)):
+                    strip.add(m)
+                elif out != q:
+                    raise AnalysisBroken('parse_san: %s returns %s for a string ending in %r' % (short(h.name), out, m))
+        else:
+            raise AnalysisBroken('parse_san: the string compared with the castling spellings is neither str nor a recognised '
+                                 'transformation of it (%s)' % canon(ps, init, inline=False))
     castle_lang = set()
     for l in lits:
         castle_lang.add(tuple(frozenset([c]) for c in l))
